@@ -419,14 +419,9 @@ func checkC05(c *Ctx, r *Report) {
 				}
 			}
 		}
-		handled := map[int64]bool{}
-		eachInstr(rfn, func(_ *ssa.BasicBlock, _ int, instr ssa.Instruction) {
-			if b, ok := instr.(*ssa.BinOp); ok && b.Op == token.EQL {
-				if n, isC := constInt(b.Y); isC {
-					handled[n] = true
-				}
-			}
-		})
+		// an arm is a comparison of a byte with the marker whose equal edge goes on: `case SOH:`,
+		// `if c == SOH`, or the guard clause `if c != SOH { return err }` (ip_g8.go)
+		handled := g8MarkerArms(rfn)
 		for _, m := range []struct {
 			name string
 			v    int64
